@@ -925,12 +925,21 @@ def phase_joinnames(ctx, phase):
     futs = [ctx.get_pool().submit(_joinnames_exec, cfgs[w::n]) for w in range(n)]
     recs = [r for fu in futs for r in fu.result()]
     path = os.path.join(d, "joinnames.ndjson")
+    # binding demonstration: a recorded outcome in which a right column took the name of a left column is appended and must be rejected
+    canary = next((dict(c=r["c"], out=r["out"][:-1] + [r["out"][0]], err="") for r in recs if not r["err"] and len(r["out"]) >= 2), None)
     with open(path, "w") as f:
         for r in recs:
             f.write(json.dumps(dict(c=r["c"], out=r["out"], err=r["err"])) + "\n")
+        if canary:
+            f.write(json.dumps(canary) + "\n")
     write("check")
     verdicts = []
     res = tlc.run(d, workers=1, timeout=600, on_json=verdicts.append, extra_env=dict(VERIF_JOINNAMES=path))
+    if canary:
+        cv = [v for v in verdicts if v["i"] == len(recs) + 1]
+        if not cv or cv[0]["verdict"] == "ok":
+            raise tlc.TlcError("MC_JoinNames canary: a recorded outcome with a duplicated column name was judged ok")
+        verdicts = [v for v in verdicts if v["i"] <= len(recs)]
     if len(verdicts) != len(recs):
         raise tlc.TlcError(f"MC_JoinNames judged {len(verdicts)} of {len(recs)} recorded joins")
     counts = {}
@@ -953,7 +962,7 @@ def phase_joinnames(ctx, phase):
             sfx = "_t2" if v["mink"] == 0 else f"_t2_{v['mink']}"
             took_min = any(x.endswith(sfx) for x in r["out"][len(c["l"]):])
             mink["minimal" if took_min else "other"] += 1
-    ctx.extra["join_names"] = dict(configurations=len(recs), verdicts=counts, numeric_suffix=mink,
+    ctx.extra["join_names"] = dict(configurations=len(recs), verdicts=counts, numeric_suffix=mink, canary_rejected=bool(canary),
                                    universe=dict(left=lu, right=ru, user_suffixes=["", "_t2", "_x"], on=["keys", "same"]))
     ctx.behaviours += len(recs)
     ctx.replay_stats["steps_new"] = ctx.replay_stats.get("steps_new", 0) + len(recs)
@@ -1027,12 +1036,21 @@ def phase_verbnames(ctx, phase):
     futs = [ctx.get_pool().submit(_verbnames_exec, (cols, cfgs[w::n])) for w in range(n)]
     recs = [r for fu in futs for r in fu.result()]
     path = os.path.join(d, "verbnames.ndjson")
+    # binding demonstration: a recorded outcome with its names reversed is appended and must be rejected
+    canary = next((dict(c=r["c"], out=r["out"][::-1], exp=r["exp"][::-1], err="") for r in recs if not r["err"] and len(r["out"]) >= 2), None)
     with open(path, "w") as f:
         for r in recs:
             f.write(json.dumps(dict(c=r["c"], out=r["out"], exp=r["exp"], err=r["err"])) + "\n")
+        if canary:
+            f.write(json.dumps(canary) + "\n")
     write("check")
     verdicts = []
     tlc.run(d, workers=1, timeout=900, on_json=verdicts.append, extra_env=dict(VERIF_VERBNAMES=path))
+    if canary:
+        cv = [v for v in verdicts if v["i"] == len(recs) + 1]
+        if not cv or cv[0]["verdict"] == "ok":
+            raise tlc.TlcError("MC_VerbNames canary: a recorded outcome with reversed names was judged ok")
+        verdicts = [v for v in verdicts if v["i"] <= len(recs)]
     if len(verdicts) != len(recs):
         raise tlc.TlcError(f"MC_VerbNames judged {len(verdicts)} of {len(recs)} recorded calls")
     counts = {}
@@ -1047,7 +1065,7 @@ def phase_verbnames(ctx, phase):
                                      detail=f"{c['verb']} names: {v['verdict']}: visible {c['vis']} (columns {cols}) {c['verb']}({arg}) -> "
                                             f"names {r['out']} export {r['exp']} {r['err']} {r.get('msg', '')}",
                                      moves=[dict(v=c["verb"], i=1)], heap_obs=[], beh=r))
-    ctx.extra["verb_names"] = dict(configurations=len(recs), verdicts=counts, universe=dict(columns=cols, rename_keys=keys, new_names=vals))
+    ctx.extra["verb_names"] = dict(configurations=len(recs), verdicts=counts, canary_rejected=bool(canary), universe=dict(columns=cols, rename_keys=keys, new_names=vals))
     ctx.behaviours += len(recs)
     ctx.replay_stats["steps_new"] = ctx.replay_stats.get("steps_new", 0) + len(recs)
     ctx.replay_stats["nontrivial"] = ctx.replay_stats.get("nontrivial", 0) + len(recs)
@@ -1061,7 +1079,7 @@ def _argspace_exec(args):
     import polars as pl
     import pydiverse.transform as pdt
     import sqlalchemy as sqa
-    from pydiverse.transform import alias, arrange, export, select, slice_head, union
+    from pydiverse.transform import alias, arrange, export, join, select, slice_head, union
 
     eng = sqa.create_engine("sqlite://", poolclass=sqa.pool.StaticPool)
     frames = {}
@@ -1074,6 +1092,16 @@ def _argspace_exec(args):
 
     def tbl(bk, key, name):
         return pdt.Table(frames[key], name=name) if bk == "polars" else pdt.Table(name, pdt.SqlAlchemy(eng), name=name)
+
+    def keytbl(bk, side, keys):
+        """(lid | rid, k) table for a key sequence (0 = NULL); created on first use"""
+        key = (side, tuple(keys))
+        name = f"j{side}_" + "".join(map(str, keys)) + "x"
+        if key not in frames:
+            frames[key] = pl.DataFrame({side + "id": list(range(1, len(keys) + 1)), "k": [None if v == 0 else v for v in keys]},
+                                       schema={side + "id": pl.Int64, "k": pl.Int64})
+            frames[key].write_database(name, eng, if_table_exists="replace")
+        return tbl(bk, key, name)
 
     out = []
     for c in cfgs:
@@ -1088,6 +1116,11 @@ def _argspace_exec(args):
                             r = r >> alias()
                         r = r >> slice_head(n, offset=k)
                     rec["out"] = (r >> export(pdt.Polars()))["rid"].to_list()
+                elif c["verb"] == "joinrows":
+                    lt, rt = keytbl(bk, "l", c["l"]), keytbl(bk, "r", c["r"])
+                    on = "k" if c["on"] == "str" else (lt.k == rt.k) if c["on"] == "eq" else (lt.k <= rt.k)
+                    df = lt >> join(rt, on, how=c["how"]) >> export(pdt.Polars())
+                    rec["out"] = [[a or 0, b or 0] for a, b in zip(df["lid"].to_list(), df["rid"].to_list())]
                 else:
                     lt, rt = tbl(bk, "ul", "ul"), tbl(bk, "ur", "ur")
                     le = lt >> select(*[lt[n] for n in c["l"]])
@@ -1107,16 +1140,17 @@ def phase_argspace(ctx, phase):
     """slice_head chains (numbers) and unions (name sets) over their whole small argument space (MC_ArgSpace.tla)"""
     ns, ks, sizes = phase.get("ns", [0, 1, 2, 4]), phase.get("ks", [0, 1, 2, 5]), phase.get("sizes", [0, 3, 5])
     ucols = phase.get("ucols", ["a", "b", "c"])
-    verbs = phase.get("verbs", ["slices", "union"])
+    jkeys, jmax = phase.get("jkeys", [0, 1, 2]), phase.get("jmax", 3)
+    verbs = phase.get("verbs", ["slices", "union", "joinrows"])
     d = tlc.prepare(f"{ctx.prop}-argspace-{os.getpid()}", ctx.seed)
     common = (f"NsDef == {{{', '.join(map(str, ns))}}}\nKsDef == {{{', '.join(map(str, ks))}}}\nSizesDef == {{{', '.join(map(str, sizes))}}}\n"
-              f"UColsDef == {tlc.tla_lit(ucols)}\n")
+              f"UColsDef == {tlc.tla_lit(ucols)}\nJKeysDef == {{{', '.join(map(str, jkeys))}}}\n")
 
     def write(mode):
         with open(os.path.join(d, "Run.tla"), "w") as f:
             f.write("---- MODULE Run ----\nEXTENDS MC_ArgSpace\n" + common + "====\n")
         with open(os.path.join(d, "Run.cfg"), "w") as f:
-            f.write(f'CONSTANTS\n  Mode = "{mode}"\n  Ns <- NsDef\n  Ks <- KsDef\n  Sizes <- SizesDef\n  UCols <- UColsDef\nINIT Init\nNEXT Next\nCHECK_DEADLOCK FALSE\n')
+            f.write(f'CONSTANTS\n  Mode = "{mode}"\n  Ns <- NsDef\n  Ks <- KsDef\n  Sizes <- SizesDef\n  UCols <- UColsDef\n  JKeys <- JKeysDef\n  JMaxLen = {jmax}\nINIT Init\nNEXT Next\nCHECK_DEADLOCK FALSE\n')
 
     write("gen")
     cfgs = []
@@ -1125,12 +1159,21 @@ def phase_argspace(ctx, phase):
     futs = [ctx.get_pool().submit(_argspace_exec, (ucols, sizes, cfgs[w::n])) for w in range(n)]
     recs = [r for fu in futs for r in fu.result()]
     path = os.path.join(d, "argspace.ndjson")
+    # binding demonstration: a corrupted copy of a recorded outcome (last row removed) is appended and must be rejected
+    canary = next((dict(c=r["c"], out=r["out"][:-1], names=r["names"], err="") for r in recs if not r["err"] and len(r["out"]) >= 1), None)
     with open(path, "w") as f:
         for r in recs:
             f.write(json.dumps(dict(c=r["c"], out=r["out"], names=r["names"], err=r["err"])) + "\n")
+        if canary:
+            f.write(json.dumps(canary) + "\n")
     write("check")
     verdicts = []
     tlc.run(d, workers=1, timeout=900, on_json=verdicts.append, extra_env=dict(VERIF_ARGSPACE=path))
+    if canary:
+        cv = [v for v in verdicts if v["i"] == len(recs) + 1]
+        if not cv or cv[0]["verdict"] == "ok":
+            raise tlc.TlcError("MC_ArgSpace canary: a recorded outcome with its last row removed was judged ok")
+        verdicts = [v for v in verdicts if v["i"] <= len(recs)]
     if len(verdicts) != len(recs):
         raise tlc.TlcError(f"MC_ArgSpace judged {len(verdicts)} of {len(recs)} recorded calls")
     counts = {}
@@ -1140,13 +1183,14 @@ def phase_argspace(ctx, phase):
         counts.setdefault(c["verb"], {}).setdefault(v["verdict"], 0)
         counts[c["verb"]][v["verdict"]] += 1
         if v["verdict"] != "ok":
-            clause = "rows" if v["verdict"] == "rows" else ("names" if v["verdict"] == "names" else "export-error" if v["verdict"] == "unexpected-error" else "errclass")
+            clause = "rows" if v["verdict"] in ("rows", "row-count") else ("names" if v["verdict"] == "names" else "export-error" if v["verdict"] == "unexpected-error" else "errclass")
             what = (f"{c['size']} rows, arrange(rid) >> " + (" >> alias() >> " if c["alias"] else " >> ").join(f"slice_head({n}, offset={k})" for n, k in c["args"])
-                    if c["verb"] == "slices" else f"select{c['l']} >> union(select{c['r']}, distinct={c['distinct']})")
+                    if c["verb"] == "slices" else f"keys {c['l']} join keys {c['r']} (0 = null) how={c['how']} on={c['on']}" if c["verb"] == "joinrows"
+                    else f"select{c['l']} >> union(select{c['r']}, distinct={c['distinct']})")
             ctx.failures.append(dict(clause=clause, backend=r["backend"], step=0, tainted=False, src=["argspace"], srcidx=0, exc=r["err"] or None,
                                      detail=f"{c['verb']}: {v['verdict']}: {what} -> {r['names']} {r['out']} {r['err']} {r.get('msg', '')}",
-                                     moves=[dict(v="slice_head" if c["verb"] == "slices" else "union", i=1)], heap_obs=[], beh=r))
-    ctx.extra["arg_space"] = dict(configurations=len(cfgs), executions=len(recs), verdicts=counts,
+                                     moves=[dict(v={"slices": "slice_head", "joinrows": "join"}.get(c["verb"], "union"), i=1)], heap_obs=[], beh=r))
+    ctx.extra["arg_space"] = dict(configurations=len(cfgs), executions=len(recs), verdicts=counts, canary_rejected=bool(canary),
                                   universe=dict(n=ns, offset=ks, table_sizes=sizes, union_columns=ucols))
     ctx.behaviours += len(recs)
     ctx.replay_stats["steps_new"] = ctx.replay_stats.get("steps_new", 0) + len(recs)
